@@ -44,11 +44,12 @@ ARM_CONTRACTS = {
     'set_exclusive_monitors': {'address': U32, 'size': Iv(1, 8)},
     'increment_pc_if_needed': {},
 }
+REG_CONTRACTS['select_instr_set'] = {'iset': Enumv('InstrSet', ['ARM', 'THUMB', 'JAZELLE', 'THUMB_EE'])}
 # memory accessors: contract depends on the (constant) size
 MEM_SET = {'mem_a_set': ('address', 'size', 'value'), 'mem_u_set': ('address', 'size', 'value'),
            'mem_u_unpriv_set': ('address', 'size', 'value'),
            'mem_a_with_priv_set': ('address', 'size', 'value'), 'mem_u_with_priv_set': ('address', 'size', 'value')}
-MEM_GET = {'mem_a_get': ('address', 'size'), 'mem_u_get': ('address', 'size'), 'mem_u_unpriv_get': ('address', 'size'),
+MEM_GET = {'fetch_mem': ('address', 'size'), 'mem_a_get': ('address', 'size'), 'mem_u_get': ('address', 'size'), 'mem_u_unpriv_get': ('address', 'size'),
            'mem_a_with_priv_get': ('address', 'size'), 'mem_u_with_priv_get': ('address', 'size')}
 
 
@@ -175,6 +176,10 @@ def contract_variants(clsname, meth, names):
     return [('', {n: v for n, v in c.items() if n in names})]
 
 
+def joint_for(fr, abstract):
+    return lambda assign: fr.feasible(abstract, assign)
+
+
 def check_obligation(te, ob):
     """-> (ok, value, bound_hi)"""
     v = te.ev_split(ob.term, ob.ev.guards)
@@ -258,8 +263,9 @@ class Context:
         self._ret[key] = out
         return out
 
-    def term_eval(self, fields, module):
+    def term_eval(self, fields, module, joint=None):
         te = TermEval(self.repo, self.fa, fields, module)
+        te.joint = joint
         te.sys_width = self.sys_width
         te.method_ranges = self.method_range
         return te
